@@ -99,6 +99,12 @@ CHECKS["C14"] = dict(
     note="Trusts TLC and the canonical rendering; StopIterErr outcomes are observed through try; built-in iterators are outside the statement.",
     design="§5 C14")
 
+CHECKS["C06"] = dict(
+    technique="TLA+ spec PanHeap (heap of value fingerprints, action property AppendOnly); histories of operations over live values are run in the real interpreter, every live value is fingerprinted after every operation, and TLC validates the recorded fingerprint logs against AppendOnly (trace validation)",
+    text="Every property of every pool value's prototype chain (surface dumped from the current tree) with 0/1 argument, ~40 written-out operand-building operations, repeated operations on one operand, and seeded random histories of 3..6 operations: no existing value's fingerprint (structure, prototype chain, every entry of its pairs map, function source, error text) ever changes.",
+    note="Trusts TLC and the worker's fingerprint function; histories are generated by the harness (direction B only: the specification validates, it does not enumerate); arrays with spare capacity and objects sharing pair maps are in the pool on purpose.",
+    design="§5 C06")
+
 NOT_YET = {}
 
 def main():
